@@ -275,18 +275,18 @@ def run(tier, seed):
         for api in ('stop_job', 'stop_current', 'stop_all', 'stop_background', 'stop_all_bg'):
             for nxt in ((False, True) if api not in ('stop_background', 'stop_all_bg') else (False,)):
                 items.append({'script': script, 'api': api, 'next': nxt, 'later': False, 'preempt': 2 if q else 3,
-                              'max_paths': 2500 if q else 150000, 'budget_s': 24 if q else 600})
+                              'max_paths': 1500 if q else 150000, 'budget_s': 14 if q else 600})
         if script in ('straight', 'timed'):
             items.insert(0, {'script': script, 'api': 'stop_all_handover', 'next': True, 'later': False, 'preempt': 2 if q else 3,
-                             'max_paths': 3000 if q else 150000, 'budget_s': 60 if q else 600})
+                             'max_paths': 3000 if q else 150000, 'budget_s': 40 if q else 600})
             items.insert(0, {'script': script, 'api': 'stop_next', 'next': True, 'later': False, 'preempt': 2 if q else 3,
-                             'max_paths': 3000 if q else 150000, 'budget_s': 75 if q else 600})
+                             'max_paths': 3000 if q else 150000, 'budget_s': 45 if q else 600})
         if script in ('forever', 'timed'):
             for api in ('web_stop_script', 'web_stop_script_bg'):
                 items.append({'script': script, 'api': api, 'next': False, 'later': False, 'preempt': 1 if q else 2,
-                              'max_paths': 1200 if q else 100000, 'budget_s': 20 if q else 400})
+                              'max_paths': 1200 if q else 100000, 'budget_s': 12 if q else 400})
         items.append({'script': script, 'api': 'stop_job', 'next': False, 'later': True, 'preempt': 1 if q else 2,
-                      'max_paths': 2500 if q else 150000, 'budget_s': 30 if q else 600})
+                      'max_paths': 1500 if q else 150000, 'budget_s': 15 if q else 600})
     results, skipped = report.run_pool(worker, items, budget_s=common.tier_budget(tier, 80, 1000))
     return report.finish(
         PROP, tier, seed, 'exploration', results, skipped,
